@@ -77,6 +77,9 @@ func (h *revServerHandler) CallMe(ctx context.Context, token int, mode int) (int
 	return v, nil
 }
 
+// set around a scenReverse call: WithReverseClient is listed before the formatter option
+var revOptionFirst bool
+
 type revForward struct {
 	CallMe func(ctx context.Context, token int, mode int) (int, error)
 }
@@ -89,9 +92,13 @@ func scenReverse(n, per int, fmtIdx int, cut string, transport string, withOptio
 	params := map[string]interface{}{"clients": n, "per": per, "fmt": fmtNames[fmtIdx], "cut": cut, "transport": transport, "server_option": withOption}
 	f := formatterOf(fmtIdx)
 	sopts := []jsonrpc.ServerOption{jsonrpc.WithServerMethodNameFormatter(f), jsonrpc.WithServerPingInterval(0)}
-	if withOption {
+	if withOption && revOptionFirst {
+		// server options in the other order: the reverse client must still use the formatter the server ends up with
+		sopts = append([]jsonrpc.ServerOption{jsonrpc.WithReverseClient[RevAPI]("R")}, sopts...)
+	} else if withOption {
 		sopts = append(sopts, jsonrpc.WithReverseClient[RevAPI]("R"))
 	}
+	params["reverse_option_first"] = revOptionFirst
 	srv := jsonrpc.NewServer(sopts...)
 	srv.Register("S", &revServerHandler{tr: tr})
 	ts := httptest.NewServer(srv)
@@ -289,6 +296,11 @@ func init() {
 			for fi := 1; fi < 5; fi++ {
 				emit(scenReverse(2, 2, fi, "", "ws", true))
 			}
+			revOptionFirst = true
+			for _, fi := range []int{0, 1, 3, 4} {
+				emit(scenReverse(1, 2, fi, "", "ws", true))
+			}
+			revOptionFirst = false
 			for _, cut := range []string{"fin", "rst", "close"} {
 				emit(scenReverse(1, 2, 0, cut, "ws", true))
 				emit(scenReverse(3, 2, 0, cut, "ws", true))
@@ -300,6 +312,17 @@ func init() {
 			emit(scenReverse(1, 24, 0, "prewrite", "ws", true))
 			emit(scenReverse(1, 2, 0, "", "http", true))
 			emit(scenReverse(1, 2, 0, "", "ws", false))
+			if tier == "thorough" {
+				for fi := 0; fi < 5; fi++ {
+					emit(scenReverse(6, 5, fi, "", "ws", true))
+					for _, cut := range []string{"fin", "rst", "close", "prewrite"} {
+						emit(scenReverse(2+fi%3, 3, fi, cut, "ws", true))
+					}
+				}
+				emit(scenReverse(2, 30, 0, "prewrite", "ws", true))
+				emit(scenReverse(3, 3, 2, "", "http", true))
+				emit(scenReverse(3, 3, 1, "", "ws", false))
+			}
 		}
 	})
 }
